@@ -446,8 +446,9 @@ impl LockFreeMemoryPool {
             let (current_offset, current_gen) = Self::unpack_head(packed);
 
             if current_offset == LIST_TAIL {
-                // Empty bin, need to allocate new memory
-                return self.allocate_new_block(size);
+                // Empty bin, need to allocate new memory.  Blocks of one bin are interchangeable,
+                // so every block must have the bin's full size, not just the rounded request.
+                return self.allocate_new_block(FAST_BIN_SIZES[bin_index]);
             }
 
             verif_point!("lfp.alloc.next", bin_index, current_offset);
@@ -495,7 +496,7 @@ impl LockFreeMemoryPool {
         }
 
         // Max retries exceeded, fall back to new allocation
-        self.allocate_new_block(size)
+        self.allocate_new_block(FAST_BIN_SIZES[bin_index])
     }
 
     /// Deallocate to fast bin using lock-free stack
